@@ -49,6 +49,13 @@ not go through the attribute copy loop (C10-r51), accepted when it did, UNDECIDE
 the roots. Parent assignment guarded by the truth value of an id is REFUTED (ids are opaque; C06-r32); a relation store
 that keeps only the part of the source list outside the selection is REFUTED (C02-r31).
 
+Round 6: obligation `independence` - the dependency setters take the task out of the mirror lists of its former links by
+OBJECT (`.remove(self)`, also through a hoisted alias of the list, or a rebuild filtered by `is not self`); a rebuild filtered by
+id (`t.id != self.id`) is REFUTED (copy and source share the id and both stay linked to outside tasks; C10-r62); anything
+else UNDECIDED.  Outside tasks staged in a local dict (`D[x.id] = x` under the owner test, then `for k, v in D.items():
+map.setdefault(k, v)`) are judged where D is filled, so a scan that misses the roots / the descendants is REFUTED (C10-r63).
+Copy loops fed by a generator METHOD yielding (name, value) pairs; roots.setter with the sentinel / value hoisted into locals.
+
 Not decided: id collisions between an outside task and a member (the map is keyed by id); mutable attribute values
 shared by reference; overlapping root selections in subtree(); the numeric/behavioural outcome of the setters (C01,
 C11); a private field of Task that is not fed by a constructor parameter (reported as UNDECIDED, never passed); the
@@ -98,6 +105,12 @@ def check(ctx):
                "public attributes of the source WBS are copied with the only filter `not k.startswith('_')` on the path shared by "
                "clone() and subtree()", floor=3)
     ctx.guarded(o, lambda o: clone_provenance(ctx, o, ('wbs-attrs',)))
+
+    o = ctx.ob('independence', 'R9',
+               "the dependency setters drop the mirror entry of an old link by OBJECT (list.remove(self) / `is not self`), never by id: "
+               "a copy and its source share their id, so an id comparison also erases the other side's entry on a shared outside task",
+               floor=2)
+    ctx.guarded(o, lambda o: _independence(ctx, o))
 
     o = ctx.ob('once', 'R13',
                "one clone() per selected id (inside the clone-map comprehension), one __clone_tasks and one WBS() per copy, "
@@ -160,6 +173,60 @@ def _owner(ctx, o):
     else:
         o.refute(prog.func('task.Task.children.setter'), None, 'children.setter !-> _attach',
                  "assigning children never reaches Task._attach: tasks attached under the new WBS's sentinel keep owner None")
+
+
+def _independence(ctx, o):
+    """clone()/subtree() keep links to tasks outside the source WBS on BOTH the source task and its copy (same id).  When one of
+    them is unlinked later, the setter must take exactly that object out of the outside task's mirror list."""
+    prog = ctx.prog
+    has_eq = prog.find_method('Task', '__eq__') is not None
+    for setter, mirror in (('task.Task.predecessors.setter', '_Task__successors'), ('task.Task.successors.setter', '_Task__predecessors')):
+        fn = prog.func(setter)
+        sn = fn.self_name
+        cfg = cfg_of(fn)
+        ex = Expander(prog, fn, ctx.typer)
+        seen = False
+        for c in walk_no_nested(fn.node):
+            if isinstance(c, ast.Call) and isinstance(c.func, ast.Attribute) and c.func.attr in ('remove', 'discard') and len(c.args) == 1:
+                recv = ex.expand(c.func.value, cfg.node_containing(c))       # the mirror list may be hoisted into a local alias
+                if not (isinstance(recv, ast.Attribute) and recv.attr == mirror):
+                    continue
+                if isinstance(c.args[0], ast.Name) and c.args[0].id == sn and not has_eq:
+                    o.site(fn, c, f"old links: {unmangle(mirror)}.remove(self) takes out this very object")
+                    seen = True
+        for st, tgt, val in facts.attr_stores(fn, mirror):
+            if isinstance(tgt.value, ast.Name) and tgt.value.id == sn:
+                continue                                    # the setter's own list (of the other relation name) - not a mirror list
+            e = ex.expand(val, cfg.node_of(st))
+            if not (isinstance(e, ast.ListComp) and len(e.generators) == 1 and isinstance(e.generators[0].target, ast.Name)
+                    and isinstance(e.elt, ast.Name) and e.elt.id == e.generators[0].target.id):
+                continue                                    # not a "list without ..." rewrite (e.g. the new list): other obligations
+            g = e.generators[0]
+            if not (isinstance(g.iter, ast.Attribute) and g.iter.attr == mirror and same(g.iter.value, tgt.value)):
+                continue
+            x = g.target.id
+            atoms = []
+            for cnd in g.ifs:
+                atoms += facts.split_conj(cnd, True)
+            for atom, pol in atoms:
+                m = match(f"{x}.id != $y.id", atom) or match(f"$y.id != {x}.id", atom) or match(f"{x}.id == $y.id", atom) or \
+                    match(f"$y.id == {x}.id", atom)
+                if m and isinstance(m['y'], ast.Name) and m['y'].id == sn:
+                    o.refute(fn, st, atom, f"`{src(st)[:80]}` rebuilds the other task's {unmangle(mirror)} without every entry whose ID equals "
+                                           f"this task's id (`{src(atom)}`): a copy made by clone()/subtree() and its source share the id and "
+                                           f"both stay linked to tasks outside the WBS, so unlinking one of them also erases the other "
+                                           f"from the outside task's list (a change of the copy shows on the source); drop the entry by "
+                                           f"object (`is not self` / remove(self))")
+                    seen = True
+                    continue
+                mi = match(f"{x} is not {sn}", atom) or match(f"{sn} is not {x}", atom) or \
+                    (not has_eq and (match(f"{x} != {sn}", atom) or match(f"{sn} != {x}", atom)))
+                if mi and pol:
+                    o.site(fn, st, f"old links: {unmangle(mirror)} rebuilt without this very object (`{src(atom)}`)")
+                    seen = True
+        if not seen:
+            o.undecided(fn, fn.node, f"{fn.name} unlink", f"cannot see how Task.{fn.name} setter takes the task out of the {unmangle(mirror)} "
+                                                          f"of its former links (expected `.remove(self)` or a rebuild filtered by `is not self`)")
 
 
 def _none_guard_only(conds, wp):
